@@ -432,7 +432,7 @@ def translator_tie(specs):
                     continue
                 tpath = os.path.join(gen_dir, "tie_%s_%s.v" % (sp["gen"], fn))
                 open(tpath, "w").write(
-                    "From Coq Require Import ZArith.\nFrom EG Require Import Num.Num Lib.Vec Model.Types %s Gen.%s.\n"
+                    "From Coq Require Import ZArith List.\nFrom EG Require Import Num.Num Lib.Vec Model.Types %s Gen.%s.\n"
                     "Lemma tie : %s.\nProof. intros; reflexivity. Qed.\n" % (sp["model"], sp["gen"],
                         stmt.replace("{G}", "EG.Gen.%s" % sp["gen"]).replace("{M}", "EG.%s" % sp["model"])))
                 p = subprocess.Popen(["timeout", "120", "coqc", "-noglob", "-Q", COQ, "EG", tpath], cwd=COQ,
